@@ -5,8 +5,8 @@ cd "$(dirname "$0")/.." || exit 2
 audit() {
   pid=$1
   for s in 1 2 3; do
-    VERIF_SEED=$s ./check "$pid" --tier quick > "/tmp/audit_$pid_$s.out" 2>&1
-    echo "$pid seed=$s exit=$? $(grep -v WARNING "/tmp/audit_$pid_$s.out" | tail -1)"
+    VERIF_SEED=$s ./check "$pid" --tier quick > "/tmp/audit_${pid}_${s}.out" 2>&1
+    echo "$pid seed=$s exit=$? $(grep -v WARNING "/tmp/audit_${pid}_${s}.out" | tail -1)"
     cp "evidence/$pid.json" "/tmp/audit_${pid}_${s}.json" 2>/dev/null
   done
 }
